@@ -6,6 +6,7 @@ Property theorems only.  The layout definitions (`MkFsSuper`, `FsSuper.*`,
 every run, so these theorems are re-checked against what the code says now.
 -/
 import GoNfsd.Gen.Super
+import GoNfsd.Lemmas.Alloc
 
 namespace GoNfsd.Props.C15
 open GoNfsd.Gen.Consts GoNfsd.Gen.Super
@@ -98,5 +99,19 @@ theorem layout_no_overflow (sz : Nat) (h : sz < 2 ^ 50) :
     smallest accepted disk is 1539 blocks. -/
 example : accepts 10000 := by decide
 example : accepts 1539 ∧ ¬ accepts 1538 := by decide
+
+/-- FULLY USABLE, at the allocator: whatever the position of the roving pointer, asking often
+    enough hands out EVERY free number — the count of numbers obtained equals the free count, so
+    no free block or inode of a freshly formatted (or any other) file system is unreachable for
+    the allocator (model M2, tied to the code by the `alloc` correspondence). -/
+theorem every_free_number_can_be_allocated (a : GoNfsd.Model.Alloc.Alloc) (k : Nat)
+    (h0 : a.bits.getD 0 true = true) (hpos : 0 < a.size) (hn : a.next < a.size) (hk : a.numFree ≤ k) :
+    ((a.allocMany k).2).length = a.numFree ∧ ((a.allocMany k).2).Nodup :=
+  ⟨GoNfsd.Model.Alloc.Alloc.allocMany_exhausts k a h0 hpos hn hk,
+   (GoNfsd.Model.Alloc.Alloc.allocMany_fresh k a h0 hpos).2.1⟩
+
+/-- non-vacuity: a bitmap with the reserved bit and two holes behind the roving pointer -/
+example : ((GoNfsd.Model.Alloc.Alloc.allocMany { next := 4, bits := [true, false, true, false, true, true] } 5).2) = [1, 3] := by
+  decide
 
 end GoNfsd.Props.C15
